@@ -545,6 +545,13 @@ Fixpoint fits_all (fits : gval -> pty -> Prop) (ts : list pty) (vs : list gval) 
 Lemma zipconv_length conv : forall ts vs, length (zipconv conv ts vs) = Nat.min (length ts) (length vs).
 Proof. induction ts as [|t ts IH]; intros [|v vs]; cbn; auto. Qed.
 
+Lemma param_types_length m n : length (param_types m n) = n.
+Proof.
+  unfold param_types. destruct (m_velem m).
+  - rewrite app_length, repeat_length, !firstn_length. lia.
+  - rewrite app_length, repeat_length, firstn_length. lia.
+Qed.
+
 Section C07.
 Variable fuel : nat.
 Variable hp : heap.
@@ -656,13 +663,6 @@ Definition args_fit (m : method) (args : list gval) : Prop :=
   if m_missing m then fits (GSlice args) TIfaceSlice
   else fits_all fits (param_types m (length args)) args.
 
-Lemma param_types_length m n : length (param_types m n) = n.
-Proof.
-  unfold param_types. destruct (m_velem m).
-  - rewrite app_length, repeat_length, !firstn_length. lia.
-  - rewrite app_length, repeat_length, firstn_length. lia.
-Qed.
-
 Theorem request_ops_ok co name args h ops :
   heap_ok hp = true -> values_ok args -> values_ok (map snd h) ->
   client_encode fuel hp co name args h = CEOk ops -> ops_ok ops = true.
@@ -763,7 +763,7 @@ Qed.
 Theorem request_roundtrip : forall co so svc name args h ops m,
   heap_ok hp = true -> values_ok args -> values_ok (map snd h) ->
   hfind s_simple_key h = None ->
-  Forall (fun kv => fits (snd kv) TIface) h -> fits (GBool true) TIface ->
+  Forall (fun kv => fits (snd kv) TIface) h -> (c_simple co = true -> fits (GBool true) TIface) ->
   lookup lower svc name = Some m -> args_fit m args ->
   client_encode fuel hp co name args h = CEOk ops ->
   fst (service_decode lower io_dec io_dec_hdrs so svc (emit_ops ops)) =
@@ -866,7 +866,7 @@ Qed.
 Theorem request_aligned : forall co so svc name args h ops m,
   heap_ok hp = true -> values_ok args -> values_ok (map snd h) ->
   hfind s_simple_key h = None ->
-  Forall (fun kv => fits (snd kv) TIface) h -> fits (GBool true) TIface ->
+  Forall (fun kv => fits (snd kv) TIface) h -> (c_simple co = true -> fits (GBool true) TIface) ->
   lookup lower svc name = Some m ->
   client_encode fuel hp co name args h = CEOk ops ->
   aligned ops (snd (service_decode lower io_dec io_dec_hdrs so svc (emit_ops ops))).
@@ -976,7 +976,7 @@ Qed.
 (* reading a message that starts with a header segment or not *)
 Lemma client_decode_frame co rts so rh hops tail :
   heap_ok hp = true -> values_ok (map snd rh) -> hfind s_simple_key rh = None ->
-  Forall (fun kv => fits (snd kv) TIface) rh -> fits (GBool true) TIface ->
+  Forall (fun kv => fits (snd kv) TIface) rh -> (s_simple so = true -> fits (GBool true) TIface) ->
   enc_headers fuel hp (s_simple so) (with_simple (s_simple so) rh) = CEOk hops ->
   ops_ok (hops ++ tail) = true ->
   (exists i r, strip tail = i :: r /\ match i with ITag t => Byte.eqb t t_H = false | IVal _ => True end) ->
@@ -1015,7 +1015,7 @@ Qed.
 Theorem response_roundtrip_values : forall so co rts vs rh ops,
   heap_ok hp = true -> gval_ok (shape vs) = true -> values_ok (map snd rh) ->
   hfind s_simple_key rh = None ->
-  Forall (fun kv => fits (snd kv) TIface) rh -> fits (GBool true) TIface ->
+  Forall (fun kv => fits (snd kv) TIface) rh -> (s_simple so = true -> fits (GBool true) TIface) ->
   is_error_value (shape vs) = false -> results_fit rts vs ->
   service_encode fuel hp so (inl (shape vs)) rh = CEOk ops ->
   fst (client_decode io_dec io_dec_hdrs zero co rts (emit_ops ops)) =
@@ -1051,7 +1051,7 @@ Qed.
    whose message is the same text *)
 Theorem response_roundtrip_error : forall so co rts e rh ops,
   heap_ok hp = true -> values_ok (map snd rh) -> hfind s_simple_key rh = None ->
-  Forall (fun kv => fits (snd kv) TIface) rh -> fits (GBool true) TIface ->
+  Forall (fun kv => fits (snd kv) TIface) rh -> (s_simple so = true -> fits (GBool true) TIface) ->
   service_encode fuel hp so (inr e) rh = CEOk ops ->
   fst (client_decode io_dec io_dec_hdrs zero co rts (emit_ops ops)) =
   CDErr (conv_headers (c_dec co) (with_simple (s_simple so) rh)) (error_text (s_debug so) e)
@@ -1069,7 +1069,7 @@ Qed.
 (* a result that IS an error value is sent with the error tag: the caller gets a failure, not the value *)
 Theorem response_error_value : forall so co rts msg rh ops,
   heap_ok hp = true -> values_ok (map snd rh) -> hfind s_simple_key rh = None ->
-  Forall (fun kv => fits (snd kv) TIface) rh -> fits (GBool true) TIface ->
+  Forall (fun kv => fits (snd kv) TIface) rh -> (s_simple so = true -> fits (GBool true) TIface) ->
   service_encode fuel hp so (inl (GError msg)) rh = CEOk ops ->
   fst (client_decode io_dec io_dec_hdrs zero co rts (emit_ops ops)) =
   CDErr (conv_headers (c_dec co) (with_simple (s_simple so) rh)) msg (bytes_eqb msg s_timeout).
@@ -1086,7 +1086,7 @@ Qed.
 Theorem response_aligned : forall so co rts r rh ops,
   heap_ok hp = true -> (match r with inl v => gval_ok v = true | inr _ => True end) -> values_ok (map snd rh) ->
   hfind s_simple_key rh = None ->
-  Forall (fun kv => fits (snd kv) TIface) rh -> fits (GBool true) TIface ->
+  Forall (fun kv => fits (snd kv) TIface) rh -> (s_simple so = true -> fits (GBool true) TIface) ->
   rts <> [] ->
   service_encode fuel hp so r rh = CEOk ops ->
   aligned ops (snd (client_decode io_dec io_dec_hdrs zero co rts (emit_ops ops))).
@@ -1130,3 +1130,237 @@ Proof.
 Qed.
 
 End C07.
+
+(* ================================================================== D. the JSON-RPC envelope *)
+
+Section JsonRpcProofs.
+Variable lower : bytes -> bytes.
+Variable jmarshal_req : jrequest -> bytes.
+Variable junmarshal_req : bytes -> option jrequest.
+Variable jmarshal_resp : jresponse -> bytes.
+Variable junmarshal_resp : bytes -> option jresponse.
+Variable jconv : pty -> gval -> option gval.
+
+(* the JSON oracle: what a Go value is after Marshal + Unmarshal into interface{} ([jnorm]: numbers become
+   float64, structs become maps, ...), and after a second trip into a Go type ([jconvert]); both only claimed
+   for JSON-representable values ([jrep]) *)
+Variable jnorm : gval -> gval.
+Variable jconvert : pty -> gval -> gval.
+Variable jrep : gval -> Prop.
+Variable jfits : gval -> pty -> Prop.
+
+Definition jnorm_h (h : headers) : headers := map (fun kv => (fst kv, jnorm (snd kv))) h.
+
+Definition jreq_rep (q : jrequest) : Prop :=
+  (match jq_headers q with Some h => Forall (fun kv => jrep (snd kv)) h | None => True end) /\
+  (match jq_params q with Some l => Forall jrep l | None => True end).
+
+Definition jresp_rep (p : jresponse) : Prop :=
+  (match jp_headers p with Some h => Forall (fun kv => jrep (snd kv)) h | None => True end) /\
+  (match jp_result p with Some v => jrep v /\ jnorm v <> GNil | None => True end).
+
+(* jsoniter round trips of the two envelopes: what Unmarshal(Marshal(q)) must give.  These are oracle facts
+   about one concrete envelope; the theorems take them as a premise about the envelope at hand. *)
+Definition jnorm_req (q : jrequest) : jrequest :=
+  {| jq_id := jq_id q; jq_method := jq_method q;
+     jq_headers := option_map jnorm_h (jq_headers q);
+     jq_params := option_map (map jnorm) (jq_params q) |}.
+
+Definition jnorm_resp (p : jresponse) : jresponse :=
+  {| jp_id := jp_id p; jp_headers := option_map jnorm_h (jp_headers p);
+     jp_result := option_map jnorm (jp_result p); jp_error := jp_error p |}.
+
+Definition J_request (q : jrequest) : Prop := junmarshal_req (jmarshal_req q) = Some (jnorm_req q).
+Definition J_response (p : jresponse) : Prop := junmarshal_resp (jmarshal_resp p) = Some (jnorm_resp p).
+
+(* the second trip of one value into a Go type *)
+Definition J_value : Prop := forall t v, jrep v -> jfits v t -> jconv t (jnorm v) = Some (jconvert t v).
+(* a JSON array is read back as a []interface{} of its elements *)
+Definition J_array : Prop := forall vs, jnorm (GSlice vs) = GSlice (map jnorm vs).
+
+Hypothesis Hvalue : J_value.
+Hypothesis Harray : J_array.
+
+Fixpoint jfits_all (ts : list pty) (vs : list gval) : Prop :=
+  match ts, vs with
+  | t :: tr, v :: vr => jfits v t /\ jfits_all tr vr
+  | _, _ => True
+  end.
+
+Lemma jconv_args_ok : forall ts vs, length ts = length vs ->
+  Forall (fun t => t <> TSurplus) ts -> Forall jrep vs -> jfits_all ts vs ->
+  jconv_args jconv ts (map jnorm vs) = Some (Some (zipconv jconvert ts vs)).
+Proof.
+  induction ts as [|t ts IH]; intros [|v vs] Hl Hns Hr Hf; try discriminate; [reflexivity|].
+  cbn [map jconv_args zipconv]. inversion Hns; subst. inversion Hr; subst. destruct Hf as [Hf1 Hf2].
+  destruct t; try contradiction;
+    rewrite (Hvalue _ _ H3 Hf1); rewrite (IH vs ltac:(cbn in Hl; lia) H2 H4 Hf2); reflexivity.
+Qed.
+
+(* a surplus argument: paramTypes[i] is nil and Decode dereferences it *)
+Lemma jconv_args_surplus : forall ts vs rest, length ts = length vs ->
+  Forall (fun t => t <> TSurplus) ts -> Forall jrep vs -> jfits_all ts vs ->
+  forall n, jconv_args jconv (ts ++ repeat TSurplus (S n)) (map jnorm vs ++ rest) = None.
+Proof.
+  induction ts as [|t ts IH]; intros [|v vs] rest Hl Hns Hr Hf n; try discriminate.
+  - reflexivity.
+  - cbn [map app jconv_args]. inversion Hns; subst. inversion Hr; subst. destruct Hf as [Hf1 Hf2].
+    destruct t; try contradiction;
+      rewrite (Hvalue _ _ H3 Hf1); rewrite (IH vs rest ltac:(cbn in Hl; lia) H2 H4 Hf2 n); reflexivity.
+Qed.
+
+Definition jexpected_args (m : method) (args : list gval) : list gval :=
+  if m_missing m then map jnorm args else zipconv jconvert (param_types m (length args)) args.
+
+(* no argument beyond the parameters *)
+Definition no_surplus (m : method) (n : nat) : Prop :=
+  m_missing m = true \/ Forall (fun t => t <> TSurplus) (param_types m n).
+
+Theorem jsonrpc_request_roundtrip : forall svc counter name args h m,
+  name <> [] -> lookup lower svc name = Some m ->
+  J_request (jrequest_of counter name args h) -> Forall jrep args ->
+  no_surplus m (length args) -> (m_missing m = false -> jfits_all (param_types m (length args)) args) ->
+  let '(counter', req) := jclient_encode jmarshal_req counter name args h in
+  counter' = (counter + 1)%Z /\
+  jservice_decode lower junmarshal_req jconv svc req =
+  JSOk (Z.land (counter + 1) 2147483647)
+       {| rq_name := name; rq_headers := jnorm_h h; rq_method := m; rq_args := jexpected_args m args |}.
+Proof.
+  intros svc counter name args h m Hname Hlk Hq Ha Hns Hf.
+  unfold jclient_encode. split; [reflexivity|].
+  unfold jservice_decode. rewrite Hq. unfold jnorm_req, jrequest_of.
+  cbn [jq_method jq_id jq_headers jq_params].
+  destruct name as [|b name]; [contradiction|]. rewrite Hlk.
+  assert (Eh : forall (o : option headers), o = match h with [] => None | _ :: _ => @Some headers h end ->
+               match option_map jnorm_h o with Some h0 => h0 | None => [] end = jnorm_h h)
+    by (intros o ->; destruct h; reflexivity).
+  assert (Ep : forall (o : option (list gval)), o = match args with [] => None | _ :: _ => Some args end ->
+               match option_map (map jnorm) o with Some l => l | None => [] end = map jnorm args)
+    by (intros o ->; destruct args; reflexivity).
+  rewrite (Eh _ eq_refl), (Ep _ eq_refl). unfold jexpected_args.
+  destruct (m_missing m) eqn:Em; [reflexivity|].
+  rewrite map_length.
+  destruct Hns as [Hx|Hns]; [congruence|].
+  rewrite (jconv_args_ok _ _ (param_types_length m (length args)) Hns Ha (Hf eq_refl)). reflexivity.
+Qed.
+
+(* more arguments than a non-variadic method has parameters: the service codec panics inside Decode *)
+Theorem jsonrpc_surplus_panics : forall svc counter name args extra h m,
+  name <> [] -> lookup lower svc name = Some m -> m_missing m = false -> m_velem m = None ->
+  length args = length (m_params m) -> Forall (fun t => t <> TSurplus) (m_params m) ->
+  J_request (jrequest_of counter name (args ++ extra) h) -> Forall jrep (args ++ extra) -> extra <> [] ->
+  jfits_all (m_params m) args ->
+  jservice_decode lower junmarshal_req jconv svc
+    (snd (jclient_encode jmarshal_req counter name (args ++ extra) h)) = JSPanic.
+Proof.
+  intros svc counter name args extra h m Hname Hlk Hmiss Hve Hlen Hns Hq Ha Hex Hf.
+  unfold jclient_encode. cbn [snd]. unfold jservice_decode. rewrite Hq. unfold jnorm_req, jrequest_of.
+  cbn [jq_method jq_id jq_headers jq_params].
+  destruct name as [|b name]; [contradiction|]. rewrite Hlk, Hmiss.
+  assert (Ep : forall (o : option (list gval)), o = match args ++ extra with [] => None | _ :: _ => Some (args ++ extra) end ->
+               match option_map (map jnorm) o with Some l => l | None => [] end = map jnorm (args ++ extra))
+    by (intros o ->; destruct (args ++ extra); reflexivity).
+  rewrite (Ep _ eq_refl). rewrite map_length, app_length.
+  unfold param_types. rewrite Hve.
+  rewrite firstn_all2 by lia.
+  destruct extra as [|e extra]; [contradiction|]. cbn [length].
+  replace (length args + S (length extra) - length (m_params m))%nat with (S (length extra)) by lia.
+  rewrite map_app. apply Forall_app in Ha. destruct Ha as [Ha1 Ha2].
+  rewrite (jconv_args_surplus (m_params m) args (map jnorm (e :: extra)) (eq_sym Hlen) Hns Ha1 Hf). reflexivity.
+Qed.
+
+(* results *)
+Definition jexpected_results (rts : list pty) (vs : list gval) : list gval :=
+  match shape vs with
+  | GNil => []
+  | v =>
+      match rts with
+      | [] => []
+      | [t] => [jconvert t v]
+      | _ => zipconv jconvert rts vs
+      end
+  end.
+
+Lemma jconv_results_ok : forall vs ts, (length vs <= length ts)%nat ->
+  Forall jrep vs -> jfits_all ts vs ->
+  jconv_results jconv ts (map jnorm vs) = Some (Some (zipconv jconvert ts vs)).
+Proof.
+  induction vs as [|v vs IH]; intros ts Hl Hr Hf; [destruct ts; reflexivity|].
+  destruct ts as [|t ts]; [cbn in Hl; lia|]. cbn [map jconv_results zipconv].
+  inversion Hr; subst. destruct Hf as [Hf1 Hf2].
+  rewrite (Hvalue _ _ H1 Hf1). rewrite (IH ts ltac:(cbn in Hl; lia) H2 Hf2). reflexivity.
+Qed.
+
+Lemma jenc_value id v rh : is_error_value v = false -> v <> GNil ->
+  jresponse_of id (inl v) rh =
+  {| jp_id := id; jp_headers := match rh with [] => None | _ => Some rh end;
+     jp_result := Some v; jp_error := None |}.
+Proof. intros He Hn. destruct v; try discriminate; try reflexivity. contradiction. Qed.
+
+Lemma jexpected_value rts vs : shape vs <> GNil ->
+  jexpected_results rts vs =
+  match rts with [] => [] | [t] => [jconvert t (shape vs)] | _ => zipconv jconvert rts vs end.
+Proof. intros Hn. unfold jexpected_results. destruct (shape vs); try reflexivity. contradiction. Qed.
+
+Theorem jsonrpc_response_roundtrip : forall id rts vs rh,
+  is_error_value (shape vs) = false ->
+  J_response (jresponse_of id (inl (shape vs)) rh) -> jrep (shape vs) ->
+  match rts with
+  | [] => True
+  | [t] => jfits (shape vs) t
+  | _ => (2 <= length vs <= length rts)%nat /\ Forall jrep vs /\ jfits_all rts vs
+  end ->
+  jclient_decode junmarshal_resp jconv rts (jservice_encode jmarshal_resp id (inl (shape vs)) rh) =
+  JCRes id (jnorm_h rh) (jexpected_results rts vs).
+Proof.
+  intros id rts vs rh Hne Hp Hr Hf.
+  assert (Ehh : forall o : option headers, o = match rh with [] => None | _ :: _ => @Some headers rh end ->
+            match option_map jnorm_h o with Some h0 => h0 | None => [] end = jnorm_h rh)
+    by (intros o ->; destruct rh; reflexivity).
+  assert (Hd : shape vs = GNil \/ shape vs <> GNil) by (destruct (shape vs); auto; right; discriminate).
+  destruct Hd as [Hnil|Hnot].
+  - (* nil result: nothing is sent *)
+    unfold jservice_encode, jclient_decode. rewrite Hp.
+    unfold jexpected_results. rewrite Hnil. unfold jnorm_resp, jresponse_of.
+    cbn [jp_id jp_headers jp_result jp_error option_map]. rewrite (Ehh _ eq_refl). reflexivity.
+  - rewrite (jexpected_value _ _ Hnot). unfold jservice_encode, jclient_decode.
+    rewrite Hp. rewrite (jenc_value _ _ _ Hne Hnot). unfold jnorm_resp.
+    cbn [jp_id jp_headers jp_result jp_error option_map]. rewrite (Ehh _ eq_refl).
+    destruct rts as [|t0 [|t1 rts]].
+    + reflexivity.
+    + rewrite (Hvalue _ _ Hr Hf). reflexivity.
+    + destruct Hf as [[Hl1 Hl2] [Hrv Hfa]].
+      assert (Esl : shape vs = GSlice vs) by (destruct vs as [|v1 [|v2 vs']]; cbn in Hl1; try lia; reflexivity).
+      rewrite Esl, Harray. rewrite (jconv_results_ok vs _ Hl2 Hrv Hfa). reflexivity.
+Qed.
+
+(* errors: code / message / data mapping *)
+Definition jerr_norm (e : jerrv) : jerrv :=
+  match e with
+  | JProto code msg => if (code =? 0)%Z then JPlain msg else JProto code msg
+  | JPanic msg [] => JPlain msg
+  | other => other
+  end.
+
+Theorem jsonrpc_response_error : forall id rts e rh,
+  J_response (jresponse_of id (inr e) rh) ->
+  jclient_decode junmarshal_resp jconv rts (jservice_encode jmarshal_resp id (inr e) rh) =
+  JCErr id (jnorm_h rh) (jerr_norm e).
+Proof.
+  intros id rts e rh Hp. unfold jservice_encode, jclient_decode. rewrite Hp. unfold jnorm_resp, jresponse_of.
+  assert (Ehh : forall o : option headers, o = match rh with [] => None | _ :: _ => @Some headers rh end ->
+            match option_map jnorm_h o with Some h0 => h0 | None => [] end = jnorm_h rh)
+    by (intros o ->; destruct rh; reflexivity).
+  destruct e as [code msg|msg stack|msg];
+    cbn [jp_id jp_headers jp_result jp_error option_map je_code je_message je_data]; rewrite (Ehh _ eq_refl);
+    cbn [jerr_norm].
+  - destruct (code =? 0)%Z; reflexivity.
+  - destruct stack; reflexivity.
+  - reflexivity.
+Qed.
+
+(* the message the caller sees is the function's, whichever branch *)
+Lemma jerr_text_norm e : (forall code msg, e <> JProto code msg) -> jerr_text (jerr_norm e) = jerr_text e.
+Proof. destruct e as [code msg|msg [|b st]|msg]; intros H; try reflexivity. exfalso. eapply H; reflexivity. Qed.
+
+End JsonRpcProofs.
